@@ -2,13 +2,18 @@
 EXTENDS Sig, FkCases
 
 Locs3 == {"en", "fr", "de"}
-KindNames == {"text", "num", "varx", "vary_compb", "comp_only", "comp_nested_only", "comp_var_only", "range_u8", "range_i8", "plural", "plural_renamed", "range_fk_renamed", "null"}
+KindNames == {"text", "num", "varx", "vary_compb", "comp_only", "comp_nested_only", "comp_var_only", "range_u8", "range_i8", "plural", "plural_renamed", "range_fk_renamed", "range_fk_mixed_then_var", "null"}
 
 RangeOf(ty, tag) == [k |-> "ranges", ty |-> ty, ck |-> Cnt,
                      b |-> << [alts |-> <<Exact(2)>>, v |-> <<T(tag \o <<"1">>), V(X)>>], [alts |-> <<Wild>>, v |-> <<T(tag \o <<"2">>), V(Cnt)>>] >>]
 PluralOf(tag) == [k |-> "plurals", ty |-> "cardinal", ck |-> Cnt,
                   forms |-> [one |-> <<T(tag \o <<"1">>), V(Cnt)>>, other |-> <<T(tag \o <<"2">>), V(Y)>>]]
 N1 == <<"n">>
+\* a range whose arms mix a variable, a plain literal and the count (in that order), reached through a reference from a value
+\* that uses the same variable again after the reference
+RangeMixed == [k |-> "ranges", ty |-> "i32", ck |-> Cnt,
+               b |-> << [alts |-> <<Exact(3)>>, v |-> <<V(X), T(<<"SP","a">>)>>], [alts |-> <<Exact(4)>>, v |-> <<T(<<"l","i","t">>)>>],
+                        [alts |-> <<Wild>>, v |-> <<V(Cnt), T(<<"SP","m">>)>>] >>]
 
 \* the entry of key k in locale x for a kind
 EntryFor(kind, x) ==
@@ -25,11 +30,12 @@ EntryFor(kind, x) ==
       [] kind = "plural" -> PluralOf(tag)
       [] kind = "plural_renamed" -> Val(<<T(tag), Fk(<<"p">>, <<ArgP(Cnt, <<V(N1)>>)>>)>>)
       [] kind = "range_fk_renamed" -> Val(<<Fk(<<"r">>, <<ArgP(Cnt, <<V(N1)>>), ArgP(X, <<T(<<"A">>)>>)>>)>>)
+      [] kind = "range_fk_mixed_then_var" -> Val(<<Fk(<<"s">>, <<>>), T(<<"SP">> \o tag), V(X)>>)
       [] OTHER -> [k |-> "null"]
 
 ProjectFor(kinds) ==
     [def |-> "en", locs |-> <<"en", "fr", "de">>, inh |-> << >>,
-     vals |-> [x \in Locs3 |-> [k |-> EntryFor(kinds[x], x), p |-> PluralOf(<<"p">>), r |-> RangeOf("u8", <<"r">>)]]]
+     vals |-> [x \in Locs3 |-> [k |-> EntryFor(kinds[x], x), p |-> PluralOf(<<"p">>), r |-> RangeOf("u8", <<"r">>), s |-> RangeMixed]]]
 
 ContribOf(kinds) ==
     LET P == ProjectFor(kinds) IN
@@ -44,7 +50,7 @@ VARIABLE kinds
 MCInit == kinds \in KindChoices /\ InitWith(ContribOf(kinds))
 MCNext == Next /\ UNCHANGED kinds
 EmitCases == (todo = Locs3 /\ ~err) =>
-    PrintT(<<"CASE", ToJson(ProjectCase("sig-mix", ProjectFor(kinds), [k \in {"k", "p", "r"} |-> k],
+    PrintT(<<"CASE", ToJson(ProjectCase("sig-mix", ProjectFor(kinds), [k \in {"k", "p", "r", "s"} |-> k],
                                         IF MustFail(contrib) THEN "must-fail" ELSE "none"))>>)
 MCSpec == MCInit /\ [][MCNext]_<<vars, kinds>> /\ WF_<<vars, kinds>>(MCNext)
 =============================================================================
